@@ -432,6 +432,14 @@ def oracle(c, R):
             bad.append(("mixed-solution", "after %d updates the caller's %s array is %.3g away from the solution (limit %.3g)"
                         % (mi, R["x_dtype_in"], err, lim),
                         {"solution": emb_vec(xs_).tolist(), "caller_array_after": emb_vec(R["caller_x"]).tolist()}))
+    # the state right after construction: r = b - A x0, rzold = <r, P r>, resid = sqrt(rzold) (before any update)
+    o0 = obs[0]
+    z0 = o0["r"] if P is None else P @ o0["r"]
+    rz0 = float(np.real(np.vdot(o0["r"], z0)))
+    if abs(o0["rz"] - rz0) > 1e-9 * max(abs(rz0), 1e-300) + 1e-300 or \
+            not (abs(o0["resid"] - np.sqrt(max(rz0, 0.0))) <= 1e-9 * np.sqrt(max(rz0, 0.0)) + 1e-300):
+        bad.append(("initial-residual", "before the first update the tracked residual norm is %r, sqrt(<r0, P r0>) = %r" % (o0["resid"], float(np.sqrt(max(rz0, 0.0)))),
+                    {"resid": o0["resid"], "rzold": o0["rz"], "expected_rz": rz0}))
     if not c.get("alias_xb") and not np.array_equal(R["b_after"], b):
         bad.append(("b-mutated", "right-hand side array modified", {}))
     for k, o in enumerate(obs):
